@@ -84,8 +84,8 @@ def run(chk):
     rets = [r for r in ast.walk(rr.node) if isinstance(r, ast.Return)]
     spec = {"None, set()": "path mismatch", "None, self._allowed_methods": "method mismatch"}
     texts = [norm.raw(r.value) for r in rets]
-    e = [r for r in rets if norm.raw(r.value).strip("()") + ")" == "None, set())"]
-    m = [r for r in rets if norm.raw(r.value).strip("()") == "None, self._allowed_methods"]
+    e = [r for r in rets if _t(r.value) == "None, set()"]
+    m = [r for r in rets if _t(r.value) == "None, self._allowed_methods"]
     if e and PC.has_lit(PC.pc(e[0]), "self._match(request.rel_url.path_safe) is None", True) is not None and len(e) == 1:
         chk.ok("C14.resource", e[0], "Resource.resolve: empty set only when the path does not match")
     else:
@@ -95,8 +95,8 @@ def run(chk):
     else:
         chk.violation("C14.resource", rr, "return None, self._allowed_methods", "", "Resource.resolve does not report its methods on a method mismatch")
     sr = repo.func(MOD, "StaticResource.resolve")
-    e = [r for r in ast.walk(sr.node) if isinstance(r, ast.Return) and norm.raw(r.value).strip("()") + ")" == "None, set())"]
-    m2 = [r for r in ast.walk(sr.node) if isinstance(r, ast.Return) and norm.raw(r.value).strip("()") == "None, allowed_methods"]
+    e = [r for r in ast.walk(sr.node) if isinstance(r, ast.Return) and _t(r.value) == "None, set()"]
+    m2 = [r for r in ast.walk(sr.node) if isinstance(r, ast.Return) and _t(r.value) == "None, allowed_methods"]
     if len(e) == 1 and m2 and PC.has_lit(PC.pc(m2[0]), "request.method in self._allowed_methods", False) is not None:
         chk.ok("C14.resource", m2[0], "StaticResource.resolve: allowed methods on method mismatch, empty set only on prefix mismatch")
     else:
@@ -199,6 +199,11 @@ def run(chk):
             chk.violation("C14.segment", good, good.value, f"excluded: {sorted(chr(c) for c in uni - got)[:8]}", "variable segments accept '/' or refuse ordinary characters")
     else:
         chk.violation("C14.segment", dr.node, "GOOD = r'[^{}/]+'", "", "variable segment pattern vanished")
+
+
+def _t(v) -> str:
+    t = norm.raw(v)
+    return t[1:-1] if t.startswith("(") and t.endswith(")") else t
 
 
 def re_flags():
